@@ -753,5 +753,36 @@ theorem prepare_nojoin_of_covered (F : Facts) (tables : List Table) (stmt : Stmt
   rw [mapM_fileLines]
   simp only [hc, if_true]
 
+/-! ### decidable forms of hypotheses, for kernel-evaluated non-vacuity examples -/
+
+/-- a decidable form of `QueryNoLimit` / `QueryIsSelect` for a concrete query text -/
+def exQueryShape (F : Facts) (queryText : List Char) (p : Stmt → Bool) : Bool :=
+  match parseText (lexOracles F) (regexValidFn F) queryText with
+  | .stmt query => (match stmtOf query with
+    | some (stmt, _, _) => p stmt
+    | none => true)
+  | _ => true
+
+theorem exQueryShape_sound (F : Facts) (queryText : List Char) (p : Stmt → Bool) (h : exQueryShape F queryText p = true)
+    (query : LStmt) (stmt : Stmt) (fromTable : String) (join : Option LJoin)
+    (hq : parseText (lexOracles F) (regexValidFn F) queryText = .stmt query) (hs : stmtOf query = some (stmt, fromTable, join)) :
+    p stmt = true := by
+  unfold exQueryShape at h
+  rw [hq] at h
+  simp only [hs] at h
+  exact h
+
+open Sqlgrep.Spec.Agg in
+/-- the checkable sufficient condition for `PermSafe` (`permSafe_of_small_ints`): order-insensitive aggregates whose
+arguments on every admitted row are NULL or INTs within ±2^20, at most 2^20 rows -/
+def permSafeB (O : Oracles) (a : AggStmt) (keyed : List (List Value × Env)) : Bool :=
+  (slotKinds a).all (fun kind => orderInsensitive kind &&
+    keyed.all (fun r => (okOf (argument O a r.2 kind)).all smallIntOrNull)) && decide (keyed.length ≤ 1048576)
+
+theorem permSafeB_sound (O : Oracles) (a : AggStmt) (keyed : List (List Value × Env)) (h : permSafeB O a keyed = true) :
+    PermSafe O a keyed := by
+  simp only [permSafeB, Bool.and_eq_true, List.all_eq_true, decide_eq_true_eq] at h
+  exact permSafe_of_small_ints (fun kind hk => (h.1 kind hk).1) (fun kind hk r hr => (h.1 kind hk).2 r hr) h.2
+
 end Pipeline
 end Sqlgrep
